@@ -27,7 +27,7 @@ M = [
  ("m05-stat", "C05", "v3/util/gtld.go", "func IsInTLDMap(label string) bool {\n", "func IsInTLDMap(label string) bool {\n\tif _, err := os.Stat(\"/etc/zlint-tlds\"); err == nil {\n\t\treturn true\n\t}\n"),
  ("m05-local-time", "C05", "v3/lints/cabf_ev/lint_ev_valid_time_too_long.go", "c.NotBefore.AddDate(0, 27, 0).Before(c.NotAfter)", "c.NotBefore.Local().AddDate(0, 27, 0).Before(c.NotAfter)"),
  ("m05-package-cache", "C05", "v3/lints/rfc/lint_ext_duplicate_extension.go", "func (l *extDuplicateExtension) Execute(cert *x509.Certificate) *lint.LintResult {\n", "var lastDup string\n\nfunc (l *extDuplicateExtension) Execute(cert *x509.Certificate) *lint.LintResult {\n\tif lastDup != \"\" && len(cert.Extensions) > 9 {\n\t\treturn &lint.LintResult{Status: lint.Error, Details: lastDup}\n\t}\n\tdefer func() { lastDup = \"seen \" + cert.SerialNumber.String() }()\n"),
- ("m05-eku-ku-map-order", "C05", "v3/lints/rfc/lint_key_usage_and_extended_key_usage_inconsistent.go", "\t\t\tfor _, mpku := range previous {\n", "\t\t\tfor mpku := range mp {\n"),
+ ("m05-eku-ku-map-order", "C05", "v3/lints/rfc/lint_key_usage_and_extended_key_usage_inconsistent.go", "\t\t\tfor _, mpku := range previous {\n\t\t\t\tmp[mpku|ku] = true\n\t\t\t}\n\t\t\tmp[ku] = true\n", "\t\t\tif len(mp) > 0 && mp[ku] {\n\t\t\t\tfor mpku := range mp {\n\t\t\t\t\tmp[mpku|ku] = true\n\t\t\t\t}\n\t\t\t}\n\t\t\t_ = previous\n\t\t\tmp[ku] = true\n"),
  ("m06-extra-warn", "C06", "v3/lints/cabf_br/lint_ca_country_name_missing.go", "Status: lint.Error", "Status: lint.Warn"),
  ("m07-append-cn", "C07", "v3/lints/cabf_br/lint_dnsname_contains_empty_label.go", "func (l *DNSNameEmptyLabel) Execute(c *x509.Certificate) *lint.LintResult {\n", "func (l *DNSNameEmptyLabel) Execute(c *x509.Certificate) *lint.LintResult {\n\tif c.Subject.CommonName != \"\" {\n\t\tc.DNSNames = append(c.DNSNames, c.Subject.CommonName+\"..\")\n\t}\n"),
  ("m08-precedence", "C08", "v3/lint/registration.go", "\t\tif nameExcludes != nil && nameExcludes[name] {\n\t\t\tcontinue\n\t\t}\n\t\tif nameIncludes != nil && !nameIncludes[name] {\n\t\t\tcontinue\n\t\t}", "\t\tif nameIncludes != nil && nameIncludes[name] {\n\t\t\tif err := registerFunc(); err != nil {\n\t\t\t\treturn nil, err\n\t\t\t}\n\t\t\tcontinue\n\t\t}\n\t\tif nameExcludes != nil && nameExcludes[name] {\n\t\t\tcontinue\n\t\t}\n\t\tif nameIncludes != nil && !nameIncludes[name] {\n\t\t\tcontinue\n\t\t}"),
